@@ -20,7 +20,7 @@ REACH = ["merged_calls", "parent_fresh", "parent_from_cache", "parent_from_disk"
 
 LEVELS = 5
 KEYS = ["a", "b", "c", "d", "e", "f"]
-VKINDS = ["int", "str", "float", "list", "dict", "arr-int64", "arr-float64", "frame", "series", "none", "bytes", "date", "nested-partition", "true"]
+VKINDS = ["none", "int", "str", "float", "list", "dict", "arr-int64", "arr-float64", "frame", "series", "none", "bytes", "date", "nested-partition", "true"]
 
 PROGRAM = "import twosigma.memento as m\n" + "".join('''
 @m.memento_function
@@ -63,6 +63,8 @@ def mkval(spec, x):
     kind, u = spec
     from twosigma.memento.partition import InMemoryPartition
     import numpy as np
+    if kind == "none":
+        return None          # a bare None: stored without any content object
     if kind == "nested-partition":
         return InMemoryPartition({"n": [u, x], "m": np.arange(3, dtype=np.int64) + u})
     v = values.build(kind)
